@@ -120,7 +120,7 @@ def classify(case, r):
 
 
 def run_case(case, tier):
-    r = svt.run_encode(case, "rel", timeout=900)
+    r = svt.run_encode(case, "rel", timeout=240)
     try:
         if not r.json_ok and not r.hang and not r.crash:
             return dict(violations=[], nontrivial=False, dkey=None, classes=["no_json"], sample=None, inconclusive="no json exit=%s" % r.exit)
